@@ -12,7 +12,8 @@ TLC:       CopyrightDoc_codec*.cfg  closed: every list of <= 4 / 5 lines over 8 
            DotAnyIndent -> CodecLaw; state kept between calls (memo history variable): StaleDump ->
            RoundTrip, LicMemoBySynopsis -> RoundTrip, ParseMemoAliased -> CodecRepeat;
            CommaSeparates (separator look-alikes at the edge of a word are cut off) -> RoundTrip,
-           RejectDrops (a refused assignment removes the old value) -> RoundTrip
+           RejectDrops (a refused assignment removes the old value) -> RoundTrip,
+           MayAcceptedSplits (a pattern with a white-space look-alike is taken and split by the reader) -> RoundTrip
            word shapes: the payload ids of patterns carry a shape (CopyrightDoc!WShape: plain / edge = begins or
            ends with a separator look-alike such as , ; : | / punct = punctuation only); every CASE has words of
            every shape, concretized accordingly in EVERY concretization (the canonical one included)
@@ -22,6 +23,22 @@ TLC:       CopyrightDoc_codec*.cfg  closed: every list of <= 4 / 5 lines over 8 
            Deb822.validate_input refuses, lists the converters refuse, None for a mandatory field, item
            assignment / deletion of restricted fields, deletion of a missing field, add_* of the wrong class,
            header = <not a Header>); ApplyCall says they change nothing: HistoryKept, RoundTrip
+           calls the format does not settle (CopyrightDoc!MayReject): a value with a separator look-alike INSIDE (Unicode
+           white space that is not blank / tab / newline -- U+00A0, U+1680, U+2000..U+200A, U+202F, U+205F, U+3000 --,
+           U+001F, invisible fillers, full-width / ideographic comma and semicolon) as a pattern, an entry of a line-based
+           list, a single-line value, a line of a raw field or a synopsis.  Law: REFUSED AND NOTHING CHANGED, OR CARRIED OUT
+           AND THE VALUE IS ONE OPAQUE WORD of the document that survives both round trips.  The outcome is the field acc of
+           the call record: TLC enumerates both outcomes in the build histories (DocReject) and the edits (BadEdits) --
+           files / license synopsis / custom field --; the two CASE lines get the same concretization and the observed
+           outcome selects the one that is judged; recorded calls carry acc = did not raise.  Negative control
+           MayAcceptedSplits (carried out, but the reader splits at the look-alike) -> RoundTrip
+           faults of caller-supplied objects (SIZE_STRESS part 5; CopyrightDoc kind "fault"): p.files / header line-based
+           fields = an iterable that raises at its first / a middle / its last step (generator, iterable object; OSError,
+           ValueError, KeyError, a private class), dump(<file object whose k-th write() raises>) of the document and of one
+           paragraph, Copyright(<generator / iterable of byte lines / TextIOWrapper / BufferedReader over a raw stream that
+           raises; an input that ends early at a line end or inside a line>).  The specification: the call raises (the
+           caller's own exception object: diagnostic) and changes nothing; a swallowed fault is a violation; the history goes
+           on (further add_* calls, setters, dumps, the three parses of every execution) and must be explained as usual
 binding:   (a) every CASE line of both closed configurations (input AND expected result computed by
                TLC) is concretized (seeded) and replayed into debian.copyright
            (b) random documents (0..6 paragraphs, texts up to 8 lines, built through the API or parsed
@@ -89,6 +106,13 @@ variant: evidence per_action_counts "parse:*", "dump:*", "(api) *".
     missing: refused), p[<restricted>] = v (RestrictedFieldError)   calls "item" / "delitem" (key case rotated)
   a REFUSED call (ValueError / TypeError / RestrictedFieldError /   spec: Rejects, ApplyCall(D, e) = D; replay: DocReject / BadEdits
     KeyError) at any point of a history                             cases; trace: ~55 % of the random calls; the size suite
+  a call the API MAY refuse (separator look-alike inside the value): spec: MayReject / acc; replay: twin CASE lines (files, license
+    files, upstream_name, upstream_contact / files_excluded,          synopsis, custom field) in DocReject / BadEdits; trace: ~22 %
+    license synopsis, copyright, comment / source / disclaimer,       of the random calls of both phases (MAY_RATE), one long
+    custom fields -- setters and p[k] = v                             pattern list per size-suite document
+  a call whose caller-supplied object FAILS (iterable of patterns /  spec: kind "fault"; replay: DocReject / BadEdits cases (Files,
+    entries, file object given to dump(f) / paragraph.dump(fd),       Upstream-Contact, dump, parse; fault position / exception
+    file object / iterator given to Copyright())                     class / kind of object rotated); trace: ~15 % of the calls
   files = list / tuple / generator; entries = list / tuple          rotated in do_call
   Header(): format, upstream_name, upstream_contact, license        header kinds of the spec; every execution
   Header: source, disclaimer, comment, copyright, custom fields,    spec: header extra / fe / fi (kind "full"; random in
@@ -110,7 +134,11 @@ variant: evidence per_action_counts "parse:*", "dump:*", "(api) *".
   globs_to_re (C16), function_deprecated_by aliases (the module has none), pickle / copy (not documented for these
   classes).  A call the specification refuses but the tree CARRIES OUT puts a value outside the domain into the
   document (DESIGN D3): that execution is unspecified from then on (replay: no verdict; trace: TLC's note "refused
-  call carried out"), the exception CLASS of a refused call is diagnostic.  Pattern / entry payloads: any ASCII
+  call carried out"), the exception CLASS of a refused call is diagnostic.  NOT so for the values the format does not
+  settle (above): the statement says "a document built from ... pattern list ..." without saying which words a
+  pattern may contain, so refusing is fine, but a value the API TOOK is part of the built document and inside the
+  statement.  Look-alikes at the EDGE of a value stay unspecified (trailing / leading white space, DESIGN D3), the
+  str.splitlines boundaries (U+0085, U+2028 ...) stay excluded (D1).  Pattern / entry payloads: any ASCII
   punctuation at the edges or as the whole word is inside the domain (white space is the only separator); a lone '.'
   keeps its own id (DotWord).
 
@@ -136,8 +164,8 @@ import core
 
 MANIFEST = dict(
     technique="TLA+ spec (CopyrightDoc: multiline codec over line classes, restricted-field converters, Deb822 dump/reader, document layer) model-checked by TLC in two closed configurations; every CASE (input + expected result) replayed into debian.copyright; recorded executions on random documents and line lists validated by TLC (TraceCopyrightDoc)",
-    text="TLC checks, for every list of up to 5 lines over 8 line-class symbols, that decoding the ' .' encoding returns the stated normal form, the original list under the statement's condition, a stable re-encoding and a value that Deb822 accepts and cannot split; and, for every header kind and every history of up to 3 add_*_paragraph calls over context paragraphs and one focus paragraph of every shape, that Load(Dump(D)) = D in strict mode and Dump(Load(Dump(D))) = Dump(D). Each of those cases is concretized (indentation with blanks and tabs, non-ASCII, '.'-prefixed words, ' .' lines, PGP-looking and field-looking lines, long lines, globs with escapes) and executed by the real Copyright / FilesParagraph / LicenseParagraph / License code with every verdict observable compared with TLC's expected result; random documents of 0..6 paragraphs with texts of up to 8 lines (built through the API or parsed in any paragraph order) and random line lists are recorded from the real code and validated by TLC. State leaking between calls or objects is covered in both directions: the specification carries what the first round trip produced as a history variable (memo) that the design must never read; every execution shares License objects and pattern lists between paragraphs and documents, edits the re-parsed document (TLC's edits / random edit sequences explained by ApplyEdits) and makes a second round trip, parses the first dump again after its first parse result was changed, re-examines the live objects of the previous case, and calls the codec twice with the returned list changed in between. Building histories also contain the calls the API refuses (values Deb822.validate_input or the list converters refuse, None for a mandatory field, item access to restricted fields, add_* of the wrong class): the specification (Rejects / ApplyCall) says that they raise and change nothing, TLC enumerates them inside the build histories and the edits, and recorded histories with accepted and refused calls are explained by folding ApplyCall. Words of pattern lists carry a shape in the model (plain / separator look-alike at an edge / punctuation only) so that every case has all of them; documents are also laid out so that line ends, field ends, paragraph separators and multi-byte characters fall on 2^k block boundaries and are read through every kind of file object (short reads, unbuffered, gzip/bz2/lzma, spooled).",
-    note="Small-scope: closed over the stated bounds; characters inside a line are sampled (seeded), not enumerated. Domain (DESIGN D1, D3): no str.splitlines boundary inside a line, license texts do not end in an empty line, the codec is not given [''], no trailing white space, copyright continuation lines are indented and non-blank; empty synopsis, white-space-only / lone-dot lines in documents are executed as unspecified. Trusted: TLC, the concretizer, the independent line classifier, the projections. A call the specification refuses but the code carries out makes that execution unspecified (no verdict). Corrupted control traces and seven spec-level negative controls are required to fail in every run.",
+    text="TLC checks, for every list of up to 5 lines over 8 line-class symbols, that decoding the ' .' encoding returns the stated normal form, the original list under the statement's condition, a stable re-encoding and a value that Deb822 accepts and cannot split; and, for every header kind and every history of up to 3 add_*_paragraph calls over context paragraphs and one focus paragraph of every shape, that Load(Dump(D)) = D in strict mode and Dump(Load(Dump(D))) = Dump(D). Each of those cases is concretized (indentation with blanks and tabs, non-ASCII, '.'-prefixed words, ' .' lines, PGP-looking and field-looking lines, long lines, globs with escapes) and executed by the real Copyright / FilesParagraph / LicenseParagraph / License code with every verdict observable compared with TLC's expected result; random documents of 0..6 paragraphs with texts of up to 8 lines (built through the API or parsed in any paragraph order) and random line lists are recorded from the real code and validated by TLC. State leaking between calls or objects is covered in both directions: the specification carries what the first round trip produced as a history variable (memo) that the design must never read; every execution shares License objects and pattern lists between paragraphs and documents, edits the re-parsed document (TLC's edits / random edit sequences explained by ApplyEdits) and makes a second round trip, parses the first dump again after its first parse result was changed, re-examines the live objects of the previous case, and calls the codec twice with the returned list changed in between. Building histories also contain the calls the API refuses (values Deb822.validate_input or the list converters refuse, None for a mandatory field, item access to restricted fields, add_* of the wrong class): the specification (Rejects / ApplyCall) says that they raise and change nothing, TLC enumerates them inside the build histories and the edits, and recorded histories with accepted and refused calls are explained by folding ApplyCall. Calls whose acceptance the format does not settle -- a pattern, entry, single-line value or synopsis with a look-alike of white space inside (NO-BREAK SPACE, EM SPACE, IDEOGRAPHIC SPACE, U+001F, full-width commas ...) -- are ordinary steps of both phases with the law 'refused and nothing changed, or carried out and the value round-trips as one word' (MayReject / acc: TLC enumerates both outcomes, the observed one selects the expected document). Calls whose caller-supplied object fails (an iterable that raises at its first / a middle / its last step, a file object whose write() raises during dump, a file object or iterator that raises or ends early during Copyright()) raise, change nothing, and the history goes on. Words of pattern lists carry a shape in the model (plain / separator look-alike at an edge / punctuation only) so that every case has all of them; documents are also laid out so that line ends, field ends, paragraph separators and multi-byte characters fall on 2^k block boundaries and are read through every kind of file object (short reads, unbuffered, gzip/bz2/lzma, spooled).",
+    note="Small-scope: closed over the stated bounds; characters inside a line are sampled (seeded), not enumerated. Domain (DESIGN D1, D3): no str.splitlines boundary inside a line, license texts do not end in an empty line, the codec is not given [''], no trailing white space, copyright continuation lines are indented and non-blank; empty synopsis, white-space-only / lone-dot lines in documents are executed as unspecified. Trusted: TLC, the concretizer, the independent line classifier, the projections. A call the specification refuses but the code carries out makes that execution unspecified (no verdict). A call the format does not settle (separator look-alike inside a value) may be refused or carried out; carried out, its value belongs to the document. Look-alikes at the edges of values are unspecified. Corrupted control traces and eight spec-level negative controls are required to fail in every run.",
     design="5 (C17)")
 
 D1_CHARS = "\n\r\v\f\x1c\x1d\x1e\x85\u2028\u2029"
@@ -148,7 +176,9 @@ NEG_CONTROLS = [("codec", "NoDotEscape", "EncodedSafe"), ("doc", "NoDotEscape", 
                 ("doc", "StaleDump", "RoundTrip"), ("doc", "LicMemoBySynopsis", "RoundTrip"),
                 ("codec", "ParseMemoAliased", "CodecRepeat"),
                 # separator look-alikes at the edges of a word; a refused assignment that removes the old value
-                ("doc", "CommaSeparates", "RoundTrip"), ("doc", "RejectDrops", "RoundTrip")]
+                ("doc", "CommaSeparates", "RoundTrip"), ("doc", "RejectDrops", "RoundTrip"),
+                # a call the format does not settle is carried out and the reader splits the word at the look-alike
+                ("doc", "MayAcceptedSplits", "RoundTrip")]
 
 # ------------------------------------------------------------------ concretization pools
 # bodies of Plain / Indented text lines: start with a non-blank, are not a lone '.', no trailing blank
@@ -193,6 +223,41 @@ PUNCT = list("!\"#$%&'()*+,-./:;<=>?@[\\]^_`{|}~")
 SEPLIKE = [",", ",", ";", ":", "|", ",,", ";;", "::", "||", ",;", "/", "&", "+", "="]
 PUNCT_ONLY = SEPLIKE + [c for c in PUNCT if c != "."] + [c * 2 for c in PUNCT] + [",.", ".,", "...", "-,-", "{,}", "(,)", "[,]", "<,>",
                                                                                  "'\"'", "--", "->", "=>", "&&", "!!", "#,", ",#"]
+
+
+# ---- values the format does not settle (spec: MayReject, ids >= MayBase).  White space of the format is blank, tab
+# and newline; a character that only LOOKS like a separator -- Unicode white space that is not format white space
+# (str.isspace(), str.split() and the regex class \\s know it, the format does not), U+001F, invisible fillers, the
+# full-width / ideographic comma and semicolon -- INSIDE a pattern, an entry, a single-line value or a synopsis may
+# be refused by the API; when the call is carried out the value is one opaque word of the document.  Offered as
+# ordinary calls of both phases (never at the edge of a value: trailing / leading white space is unspecified).
+MAY = 500000
+LOOK_SPACE = [chr(c) for c in [0x1f, 0xa0, 0x1680] + list(range(0x2000, 0x200b)) + [0x202f, 0x205f, 0x3000]]
+LOOK_OTHER = ["\uff0c", "\u3001", "\uff1b", "\u2060", "\u180e", "\u2800", "\u3164"]
+LOOK = frozenset(LOOK_SPACE + LOOK_OTHER)
+for _c in LOOK_SPACE:
+    assert _c.isspace() and len(("a%sb" % _c).split()) == 2 and len(("a%sb" % _c).splitlines()) == 1 and _c not in D1_CHARS, hex(ord(_c))
+for _c in LOOK_OTHER:
+    assert not _c.isspace() and len(("a%sb" % _c).splitlines()) == 1, hex(ord(_c))
+
+
+def has_look(s):
+    return any(ch in LOOK for ch in s)
+
+
+def may_inject(rng, w, keep_len=False):
+    """the word / line `w` with one (sometimes two) separator look-alikes INSIDE it (rng None: NBSP in the middle)"""
+    if len(w) < 2:
+        w = "a" + w + "b"
+    for _ in range(1 if rng is None or rng.random() < 0.8 else 2):
+        c = "\u00a0" if rng is None else rng.choice(LOOK_SPACE[1:4] + ["\u2003", "\u3000"] + LOOK_SPACE + LOOK_OTHER)
+        k = len(w) // 2 if rng is None else rng.randrange(1, len(w))
+        if keep_len and len(w) > 2:
+            k = min(k, len(w) - 2)
+            w = w[:k] + c + w[k + 1:]
+        else:
+            w = w[:k] + c + w[k:]
+    return w
 
 
 # ---- character / encoding stress (notes/SIZE_STRESS.md part 2); comparisons are by code point, never normalised
@@ -264,6 +329,8 @@ def punct_word(rng, n=None):
 def wshape(code):
     """CopyrightDoc!WShape of a payload id (patterns: part 1; also used for the entries of Files-Excluded /
     Files-Included: part 8)"""
+    if code >= MAY:
+        return "plain"
     return ("punct", "plain", "edge")[(code % 100) % 3] if (code // 100) % 10 in (1, 8) and code >= 800 else "plain"
 
 
@@ -298,6 +365,9 @@ for _pool in (TEXT_POOL, COPY_POOL, SYN_POOL, PAT_POOL, NAME_POOL, CONTACT_POOL,
         assert _s and _s == _s.strip() and _s != "." and not any(c in _s for c in D1_CHARS), _s
 for _s in PAT_POOL:
     assert not any(c.isspace() for c in _s), _s
+for _pool in (COPY_POOL, SYN_POOL, PAT_POOL, NAME_POOL, CONTACT_POOL, SOURCE_POOL):
+    for _s in _pool:
+        assert not has_look(_s), _s           # (the ordinary pools: values every tree must take)
 
 
 # ------------------------------------------------------------------ size dimension (notes/SIZE_STRESS.md)
@@ -389,6 +459,8 @@ class Conc:
     def shaped(self, code, n):
         """a pattern of n characters with the word shape of its payload id (CopyrightDoc!WShape)"""
         sh = wshape(code)
+        if code >= MAY:
+            return may_inject(self.rng, sized_pattern(self.rng, max(n, 3)), keep_len=True)
         if sh == "punct":
             return punct_word(self.rng, min(n, 64))
         if sh == "edge" and n >= 2:
@@ -405,7 +477,7 @@ class Conc:
         if code == -2:
             if ctx == "pat":
                 return self.get("bad2:pat", lambda: "a b" if self.canonical else self.rng.choice(
-                    ["a b", "tab\there", "new\nline", " lead", "trail ", "x\u00a0y", "em\u2003sp", "a  b", "cr\rx", "ff\x0cx"]))
+["a b", "tab\there", "new\nline", " lead", "trail ", "a  b", "cr\rx", "ff\x0cx", "x\u00a0y z", "\tlead"]))
             return self.get("bad2:entry", lambda: "a\nb" if self.canonical else self.rng.choice(["a\nb", "x y\n z", "one\n\ntwo", "p\nq"]))
         return self.body(code)
 
@@ -423,10 +495,19 @@ class Conc:
                         lambda: " " * n if self.canonical else self.rng.choice(WS1 if n == 1 else WS2))
 
     def body(self, code):
-        part = (code // 100) % 10
+        part = ((code % MAY) // 100) % 10
         shape = wshape(code)
 
         def make():
+            if code >= MAY:
+                # a value the format does not settle: an ordinary one with a separator look-alike inside
+                if self.canonical:
+                    f = CANON[part]
+                    return may_inject(None, f % ((code,) * f.count("%d")))
+                if self.stress:
+                    return self.shaped(code, size_len(self.rng, 1025)) if part in (1, 8) else may_inject(
+                        self.rng, sized_text(self.rng, size_len(self.rng, 257)), keep_len=True)
+                return may_inject(self.rng, self.rng.choice(POOLS[part]))
             if self.canonical:
                 f = CANON[part]
                 t = f % ((code,) * f.count("%d"))
@@ -472,7 +553,7 @@ def abs_line(s, it):
     if body == ".":
         return {"ind": n, "b": "dot", "id": []}
     parts = body.split(" ")
-    if len(parts) <= 2000 and all(parts) and not any(ch.isspace() for p in parts for ch in p):
+    if len(parts) <= 2000 and all(parts) and not any(ch.isspace() and ch not in LOOK for p in parts for ch in p):
         return {"ind": n, "b": "txt", "id": [it(p) for p in parts]}
     return {"ind": n, "b": "txt", "id": [it(body)]}
 
@@ -491,9 +572,10 @@ class Interner:
         self.d = {format_url: 1}
 
     def __call__(self, s):
+        """the id of a payload string; >= MAY (spec: MayBase) when it contains a separator look-alike"""
         if s not in self.d:
             self.d[s] = len(self.d) + 1
-        return self.d[s]
+        return self.d[s] + (MAY if has_look(s) else 0)
 
 
 # ------------------------------------------------------------------ driving the real code
@@ -911,12 +993,140 @@ def exc_class(e):
     return "TypeError" if isinstance(e, TypeError) else ("ValueError" if isinstance(e, ValueError) else n)
 
 
+# ---- faults of caller-supplied objects (notes/SIZE_STRESS.md part 5; spec: kind "fault").  The object the caller hands
+# over fails at its first / a middle / its last step; the caller's exception must come out and the document must be
+# as it was -- the history then goes on with ordinary calls, dumps and parses.
+class _CallerFault(Exception):
+    """a private exception class of the caller"""
+
+
+FAULT_EXC = {"OSError": OSError, "ValueError": ValueError, "KeyError": KeyError, "private": _CallerFault}
+FAULT_AT = ["first", "middle", "last"]
+FAULT_PARSE = ["gen", "iter-obj", "text-file", "bytes-file", "eof-line", "eof-mid"]
+
+
+def _fault_index(at, n):
+    """0-based step (of n) at which the object fails; "last": after everything was delivered"""
+    return 0 if at == "first" else (n if at == "last" else n // 2)
+
+
+def _faulting_iter(items, k, exc):
+    for j, x in enumerate(items):
+        if j == k:
+            raise exc
+        yield x
+    raise exc
+
+
+class _FaultyIterable:
+    """an iterable (not a generator) of lines / items whose iterator raises at step k"""
+
+    def __init__(self, items, k, exc):
+        self.items, self.k, self.exc = items, k, exc
+
+    def __iter__(self):
+        return _faulting_iter(self.items, self.k, self.exc)
+
+
+class _FaultyWriter:
+    """a text file object whose k-th write() raises (exc None: it only counts)"""
+
+    def __init__(self, k=None, exc=None):
+        self.n, self.k, self.exc, self.parts = 0, k, exc, []
+
+    def write(self, data):
+        if self.exc is not None and self.n == self.k:
+            raise self.exc
+        self.n += 1
+        self.parts.append(data)
+        return len(data)
+
+
+class _FaultyRaw(io.RawIOBase):
+    """a raw stream that raises once `limit` bytes have been read"""
+
+    def __init__(self, data, limit, exc):
+        io.RawIOBase.__init__(self)
+        self._d, self._p, self._limit, self._exc = data, 0, limit, exc
+
+    def readable(self):
+        return True
+
+    def readinto(self, b):
+        if self._p >= self._limit:
+            raise self._exc
+        n = min(len(b), 512, self._limit - self._p, len(self._d) - self._p)
+        b[:n] = self._d[self._p:self._p + n]
+        self._p += n
+        return n
+
+
+def do_fault(C, c, p, e, vr, holder):
+    """one call whose caller-supplied object fails; `holder` receives the exception object the caller's object raises
+    (the call must let exactly that one out); returns None for an input that merely ends early"""
+    at = e.setdefault("k", vr.choice(FAULT_AT) if vr is not None else "middle")
+    xc = e.setdefault("xc", vr.choice(sorted(FAULT_EXC)) if vr is not None else "OSError")
+    exc = FAULT_EXC[xc]("fault of the caller's object (%s, %s)" % (at, xc))
+    holder.append(exc)
+    f = e["f"]
+    if f == "Files" or f in ENT_ATTR:
+        items = list(e.get("pats") or (["src/*", "doc/*.txt", "Makefile"] if f == "Files" else ["Jane <j@example.org>", "Joe <k@example.org>"]))
+        k = _fault_index(at, len(items))
+        obj = _faulting_iter(items, k, exc) if vr is None or vr.random() < 0.6 else _FaultyIterable(items, k, exc)
+        setattr(p, "files" if f == "Files" else ENT_ATTR[f], obj)
+        return exc
+    if f == "dump":
+        whole = e.get("i", -1) < 0                 # the document / one paragraph (RestrictedWrapper.dump)
+        cnt = _FaultyWriter()
+        if whole:
+            c.dump(cnt)
+        else:
+            p.dump(cnt, text_mode=True)
+        w = _FaultyWriter(min(_fault_index(at, cnt.n), max(cnt.n - 1, 0)), exc)
+        if whole:
+            c.dump(f=w)
+        else:
+            p.dump(w, text_mode=True)
+        return exc
+    if f == "parse":
+        how = e.setdefault("how", vr.choice(FAULT_PARSE) if vr is not None else "gen")
+        text = c.dump()
+        lines = text.splitlines(True)
+        k = _fault_index(at, len(lines))
+        if how in ("eof-line", "eof-mid"):
+            # an input that ends early is just another input: whatever comes out, the new object is dropped
+            cut = "".join(lines[:max(k, 1)])
+            cut = cut[:-max(1, len(lines[max(k, 1) - 1]) // 2)] if how == "eof-mid" else cut
+            log = logging.getLogger("debian.copyright")
+            was = log.disabled
+            log.disabled = True              # (what a truncated input makes the reader log is not an observation)
+            try:
+                C.Copyright(io.StringIO(cut) if at != "last" else io.BytesIO(cut.encode("utf-8")), strict=at != "first")
+            except Exception:
+                pass
+            finally:
+                log.disabled = was
+            return None
+        if how == "gen":
+            C.Copyright(_faulting_iter(lines, k, exc), strict=True)
+        elif how == "iter-obj":
+            C.Copyright(_FaultyIterable([x.encode("utf-8") for x in lines], k, exc), encoding="utf-8")
+        else:
+            data = text.encode("utf-8")
+            limit = 0 if at == "first" else (len(data) if at == "last" else len("".join(lines[:k]).encode("utf-8")) + 1)
+            raw = io.BufferedReader(_FaultyRaw(data, limit, exc), 64)
+            C.Copyright(io.TextIOWrapper(raw, encoding="utf-8", newline="\n") if how == "text-file" else raw, strict=True)
+        return exc
+    raise core.MachineryError("unknown fault %r" % (e,))
+
+
 def do_call(C, c, p, e, vr=None):
     """ONE call of the public API on paragraph / header `p` of document `c` (spec: EditRec / ApplyCall).  The
     outcome is stored in the call: raised (an exception came out: the specification says which calls are
     refused, and that a refused call changes nothing) and exc.  `vr` rotates equivalent argument forms."""
     k = e["kind"]
     e["raised"], e["exc"] = False, ""
+    holder = []
     try:
         if k == "files":
             v = _mk_pats(e["pats"]) if vr is None or vr.random() < 0.6 else (tuple(e["pats"]) if vr.random() < 0.5 else (x for x in list(e["pats"])))
@@ -950,6 +1160,9 @@ def do_call(C, c, p, e, vr=None):
                 c.add_license_paragraph({"para": fp, "none": None, "header": c.header}.get(wrong, "License: x"))
             else:
                 c.header = {"para": fp, "none": None, "header": lp}.get(wrong, "Format: x")
+        elif k == "fault":
+            if do_fault(C, c, p, e, vr, holder) is None:         # (an input that ended early: not judged)
+                e["raised"], e["exc"] = True, "CallerError"
         elif k == "add":
             q = _mk_para(C, e["para"])
             if e["para"]["kind"] == "Files":
@@ -963,6 +1176,9 @@ def do_call(C, c, p, e, vr=None):
         raise
     except Exception as exc:           # an exception of the code under test is an observation
         e["raised"], e["exc"], e["msg"] = True, exc_class(exc), ("%s: %s" % (type(exc).__name__, exc))[:160]
+        if k == "fault":
+            # the caller's own exception object, and nothing else, must come out
+            e["exc"] = "CallerError" if holder and exc is holder[0] else "%s instead of the caller's exception" % type(exc).__name__
 
 
 def apply_edits(C, c, edits, vr=None):
@@ -1414,12 +1630,13 @@ def doc_concretize(case, conc):
            "fi": [" ".join(conc.body(c) for c in e) for e in h.get("fi", [])],
            "extra": [[f["k"], conc.text(f["v"], "hx" + f["k"])] for f in h.get("x", [])]}
     ops = [para(p, kof(p)) for p in case["ops"]]
-    doc = [para(p, kof(p)) for p in case["doc"]]
 
     def call(e, ek):
         """one call record printed by EncEdit, with what the specification says about it (rej, exc)"""
         k = e["kind"]
-        ce = {"kind": k, "i": e["i"] - 1, "f": e["f"], "rej": bool(e["rej"]), "xexc": e["exc"]}
+        ce = {"kind": k, "i": e["i"] - 1, "f": e["f"], "rej": bool(e["rej"]), "xexc": e["exc"],
+              # may: the format does not settle whether the API takes the call; this CASE is about the outcome acc
+              "may": bool(e.get("may")), "acc": bool(e.get("acc"))}
         if k == "files":
             ce["pats"] = conc.pats(e["p"])
         elif k == "entries":
@@ -1432,15 +1649,18 @@ def doc_concretize(case, conc):
         elif k == "add":
             ce["para"], ce["at"] = para(e["a"], 9), e["at"]
         return ce
+    # (the expected document is concretized LAST: the two CASE lines of a call the format does not settle differ
+    # in it only, and must draw the same strings)
     calls = [dict(call(c["e"], 8), after=c["at"]) for c in case.get("calls", [])]
     if not case.get("edit"):
-        return hdr, ops, doc, None, None, calls
+        return hdr, ops, [para(p, kof(p)) for p in case["doc"]], None, None, calls
     pre = [para(p, kof(p)) for p in case["pre"]]
     e = case["edit"][0]
     # (the keys of the concretization are those of the edited paragraph: the expected document `doc`
     # printed by TLC is concretized to exactly the values the edit sets)
-    ek = kof(case["pre"][e["i"] - 1]) if e["kind"] in ("files", "copy", "lic") and not e["rej"] else (9 if e["kind"] == "add" else 8)
-    return hdr, ops, doc, pre, [call(e, ek)], calls
+    ek = kof(case["pre"][e["i"] - 1]) if e["kind"] in ("files", "copy", "lic") and not e["rej"] and not e.get("may") else (9 if e["kind"] == "add" else 8)
+    edits = [call(e, ek)]
+    return hdr, ops, [para(p, kof(p)) for p in case["doc"]], pre, edits, calls
 
 
 def describe_call(e):
@@ -1469,6 +1689,10 @@ def describe_call(e):
                 "Header": "copyright.header = <not a Header>"}[e["f"]]
     if k == "add":
         return "add_%s_paragraph(...)" % e["para"]["kind"].lower()
+    if k == "fault":
+        what = {"Files": "%s.files = <iterable of patterns that raises>" % tgt, "dump": "%s.dump(<file object whose write() raises>)" % ("document" if e.get("i", -1) < 0 else tgt),
+                "parse": "Copyright(<%s of the dumped text that fails>)" % e.get("how", "iterator")}.get(e["f"], "header.%s = <iterable that raises>" % ENT_ATTR.get(e["f"], e["f"]))
+        return "%s [fault at the %s step, %s]" % (what, e.get("k", "middle"), e.get("xc", "OSError"))
     return k
 
 
@@ -1480,6 +1704,12 @@ def judge_calls(calls, diag=None):
     for e in calls:
         if "rej" not in e or "raised" not in e:
             continue
+        if e.get("may") and e["rej"] != e["raised"]:
+            # a call the format does not settle had the OTHER outcome: the twin CASE (same history, same
+            # concretization, acc flipped) carries TLC's expected document for it and is judged instead
+            return None, "twin"
+        if e["rej"] and not e["raised"] and e["kind"] == "fault":
+            return "%s did not raise: the exception of the caller's object was swallowed" % describe_call(e), False
         if e["rej"] and not e["raised"]:
             if diag is not None:
                 diag.append("%s is refused by the specification but was carried out" % describe_call(e))
@@ -1502,6 +1732,9 @@ def check_doc_case(case, conc, form="lines", dumpform="str", diag=None, vseed=No
     o = exec_doc(hdr, ops, "api", form, dumpform, choose, vseed, calls)
     real_edits = edits is not None and o["edits"] is not None and o["edits"] != SCRIBBLE
     msg, unspecified = judge_calls(o["calls"] + (o["edits"] if real_edits else []), diag)
+    mays = [e for e in o["calls"] + (o["edits"] if real_edits else []) if e.get("may") and "raised" in e]
+    if mays:
+        o["may"] = "judged by the twin case" if unspecified == "twin" else ("refused" if mays[0]["raised"] else "carried out")
     if unspecified:
         return None, o
     expected2 = None
@@ -1519,7 +1752,7 @@ def check_doc_case(case, conc, form="lines", dumpform="str", diag=None, vseed=No
             "%s%s" % (describe_call(e), " [raised %s]" % e["exc"] if e.get("raised") else "") for e in o["calls"])
     if diag is not None and o["dump"] is not None and o["order"] is not None:
         # diagnostic: insertion order of add_* and the layout of dump() as the specification has them
-        if [ops[i] for i in o["order"]] != first:
+        if [edited_doc(ops, o["calls"])[i] for i in o["order"]] != first:
             diag.append("order after add_*_paragraph calls %r differs from the specification's" % (o["order"],))
         elif pre is None:
             it = Interner(o["format0"])
@@ -1545,6 +1778,18 @@ def ks_for(crc, nconc, kind="codec"):
     and for every STRESS_EVERY-th case one size-stressed concretization (number nconc)"""
     ks = [k for k in range(nconc) if k == 0 or kind != "doc" or (crc // 7 + k) % 2 == 0]
     return ks + ([nconc] if crc % STRESS_EVERY == 0 else [])
+
+
+def case_crc(kind, case, body):
+    """the number that seeds the concretizations of a CASE line.  The two CASE lines of a call the format does not
+    settle (acc = carried out / refused) get the SAME number: both are executed alike, the observed outcome
+    decides which of the two is judged (judge_calls)"""
+    if kind == "doc":
+        es = [c["e"] for c in case.get("calls", [])] + list(case.get("edit", []))
+        if any(e.get("may") for e in es):
+            strip = [{k: v for k, v in e.items() if k not in ("acc", "rej")} for e in es]
+            return zlib.crc32(json.dumps([case["hk"], case["ops"], case["pre"], strip], sort_keys=True).encode())
+    return zlib.crc32(body.encode())
 
 
 def _doc_run(case, crc, seed, k, diag=None, nconc=None):
@@ -1587,7 +1832,7 @@ def _worker(args):
     prev = None          # Live objects of the previous document execution
     for bi, body in enumerate(bodies):
         case = json.loads(body)
-        crc = zlib.crc32(body.encode())
+        crc = case_crc(kind, case, body)
         for k in ks_for(crc, nconc, kind):
             diag = [] if len(drift) < 5 else None
             n += 1
@@ -1617,11 +1862,14 @@ def _worker(args):
                     stats["size_stressed_documents"] = stats.get("size_stressed_documents", 0) + 1
                 for v in o["var"]:
                     stats[v] = stats.get(v, 0) + 1
+                if o.get("may"):
+                    ek = "call not settled by the format (MayReject): " + o["may"]
+                    stats[ek] = stats.get(ek, 0) + 1
                 if case.get("edit"):
                     ek = ("edit_refused_" if case["edit"][0]["rej"] else "edit_") + case["edit"][0]["kind"]
                     stats[ek] = stats.get(ek, 0) + 1
                 for cl in case.get("calls", []):
-                    ek = "build_call_refused_" + cl["e"]["kind"]
+                    ek = ("build_call_refused_" if cl["e"]["rej"] else "build_call_carried_out_") + cl["e"]["kind"]
                     stats[ek] = stats.get(ek, 0) + 1
             if diag:
                 drift += diag
@@ -2071,6 +2319,10 @@ def bad_entries(rng):
     return good
 
 
+MAY_RATE = 0.22
+FAULT_RATE = 0.15
+
+
 def random_call(rng, kind, present, hdr=None):
     """one call on a paragraph of `kind` ("Files" / "License") or on the header / document ("Header"), accepted or
     refused (which: the specification decides, TLC); `present`: the names of the extra fields the target has, in
@@ -2084,6 +2336,61 @@ def random_call(rng, kind, present, hdr=None):
     def note(f):
         if f not in present:
             present.append(f)
+    if rng.random() < FAULT_RATE:
+        # a call whose caller-supplied object fails at its first / a middle / its last step (spec: kind "fault")
+        if kind == "Header":
+            f = rng.choice(["dump", "parse", "parse", "parse", "Upstream-Contact", "Files-Excluded", "Files-Included"])
+        else:
+            f = rng.choice((["Files", "Files", "Files"] if kind == "Files" else []) + ["dump"])
+        e = {"kind": "fault", "f": f, "k": rng.choice(FAULT_AT), "xc": rng.choice(sorted(FAULT_EXC))}
+        if f == "parse":
+            e["how"] = rng.choice(FAULT_PARSE)
+        elif f == "Files":
+            e["pats"] = [spice(rng, rng.choice(PAT_POOL)) for _ in range(rng.choice([1, 2, 3, 3, 8, 33]))]
+        elif f != "dump":
+            e["pats"] = [spice(rng, rng.choice(CONTACT_POOL if f == "Upstream-Contact" else PAT_POOL)) for _ in range(rng.choice([1, 2, 3, 9]))]
+        return e
+    if rng.random() < MAY_RATE:
+        # a call the format does not settle (spec: MayReject): refused and nothing changed, or carried out and the
+        # value is part of the document from then on -- whichever this tree does
+        opts = ["item", "raw"]
+        if kind == "Header":
+            opts += (["name", "name"] if hdr.get("name") is not None else []) + (["uc", "uc"] if hdr.get("uc") else []) \
+                + (["lic"] if hdr.get("lic") is not None else []) + (["fe"] if hdr.get("fe") else [])
+        else:
+            opts += ["lic"] + (["files", "files", "files", "copy"] if kind == "Files" else [])
+        k = rng.choice(opts)
+        if k == "raw":
+            f = rng.choice(settable(sorted(RAW_ATTR) if kind == "Header" else ["Comment"]) or ["X-Custom"])
+            k = "item" if f == "X-Custom" else k
+        if k == "item":
+            f = rng.choice(settable(["X-Custom", "X-Other", "X-Third"]) or ["X-%d" % len(present)])
+        if k in ("raw", "item"):
+            note(f)
+            if k == "item" or f == "Source":
+                return {"kind": k, "f": f, "copy": may_inject(rng, rng.choice(SOURCE_POOL))}
+            lines = random_copy(rng).split("\n")
+            j = rng.randrange(len(lines))
+            lines[j] = lines[j][:1] + may_inject(rng, lines[j][1:])
+            return {"kind": "raw", "f": f, "copy": "\n".join(lines)}
+        if k == "name":
+            return {"kind": "name", "copy": may_inject(rng, rng.choice(NAME_POOL))}
+        if k in ("uc", "fe"):
+            ents = [spice(rng, rng.choice(CONTACT_POOL if k == "uc" else PAT_POOL)) for _ in range(rng.choice([0, 1, 1, 2, 3]))]
+            ents.insert(rng.randrange(len(ents) + 1), may_inject(rng, rng.choice(CONTACT_POOL if k == "uc" else PAT_POOL)))
+            return {"kind": "entries", "f": "Upstream-Contact" if k == "uc" else "Files-Excluded", "pats": ents}
+        if k == "lic":
+            return {"kind": "lic", "syn": may_inject(rng, rng.choice(SYN_POOL)), "text": random_text(rng, 4)}
+        if k == "copy":
+            lines = random_copy(rng).split("\n")
+            j = rng.randrange(len(lines))
+            lines[j] = lines[j][:1] + may_inject(rng, lines[j][1:])
+            return {"kind": "copy", "copy": "\n".join(lines)}
+        pats = [spice(rng, rng.choice(PAT_POOL)) for _ in range(rng.choice([0, 1, 1, 2, 3, 8]))]
+        for _ in range(rng.choice([1, 1, 1, 2])):
+            w = sized_pattern(rng, size_len(rng, 257)) if rng.random() < 0.15 else rng.choice(PAT_POOL)
+            pats.insert(rng.randrange(len(pats) + 1), may_inject(rng, w))
+        return {"kind": "files", "pats": pats}
     bad = rng.random() < 0.55
     if kind == "Header":
         if bad:
@@ -2275,7 +2582,7 @@ def abs_word(p, it, ctx="pat"):
     -1 = '.', otherwise an interned payload id"""
     if p == "":
         return 0
-    if any(ch.isspace() for ch in p) if ctx == "pat" else "\n" in p:
+    if (any(ch.isspace() and ch not in LOOK for ch in p) or p[0] in LOOK_SPACE or p[-1] in LOOK_SPACE) if ctx == "pat" else "\n" in p:
         return -2
     return -1 if p == "." else it(p)
 
@@ -2294,7 +2601,16 @@ def abs_edit(e, it):
             "copy": abs_str(e["copy"], it) if k in ("copy", "raw", "name", "item") else [],
             "lic": abs_lic(e["syn"], e["text"], it) if k == "lic" else NO_LIC,
             "para": abs_para(e["para"], it) if k == "add" else NO_PARA,
-            "raised": bool(e.get("raised")), "exc": e.get("exc", "")}
+            # acc: the outcome of a call the format does not settle (MayReject); means nothing for the other calls
+            "raised": bool(e.get("raised")), "exc": e.get("exc", ""), "acc": not e.get("raised")}
+
+
+def may_edit(a):
+    """(statistics only) an abstract call record carries a value with a separator look-alike where MayReject looks"""
+    k = a["kind"]
+    ids = (a["pats"] if k == "files" else [w for ent in a["pats"] for w in ent] if k == "entries"
+           else [w for ln in a["copy"] for w in ln["id"]] if k in ("copy", "raw", "name", "item") else a["lic"]["syn"]["id"] if k == "lic" else [])
+    return any(w >= MAY for w in ids)
 
 
 def abs_load(o, hkey, pkey, it, ok):
@@ -2400,7 +2716,7 @@ def control_traces(traces):
     import copy
     out = []
     want = {"swap", "same", "indent", "err", "codec-indent", "codec-drop", "warn", "stale-edit", "leak-again",
-            "codec-aliased", "refused-call-silent", "accepted-call-raised", "refused-edit-applied"}
+            "codec-aliased", "refused-call-silent", "accepted-call-raised", "refused-edit-applied", "may-call-lost", "may-call-split"}
     for t in traces:
         if not want:
             break
@@ -2451,11 +2767,21 @@ def control_traces(traces):
                 out.append(c)
                 want.discard("accepted-call-raised")
             hit = [j for j, p in enumerate(t["load2"]["paras"]) if p["kind"] == "Files"] if t["load2"]["err"] == "none" else []
+            for name, got in (("may-call-lost", [[9993]]), ("may-call-split", [[1509993], [2509993]])):
+                if name in want and hit and not t["edits"]:
+                    c = copy.deepcopy(t)        # one more call, one the format does not settle: p.files = [<word with a look-alike>]
+                    old = c["load2"]["paras"][hit[0]]["pats"]
+                    c["edits"].append({"kind": "files", "i": hit[0] + 1, "at": 0, "f": "", "pats": [MAY + 9993], "copy": [], "lic": NO_LIC,
+                                       "para": NO_PARA, "raised": False, "exc": "", "acc": True})
+                    # carried out, but the second round trip shows the old list / the word split in two
+                    c["load2"]["paras"][hit[0]]["pats"] = old if name == "may-call-lost" else [MAY + 1000000 + 9993, MAY + 2000000 + 9993]
+                    out.append(c)
+                    want.discard(name)
             if "refused-edit-applied" in want and hit:
                 c = copy.deepcopy(t)            # one more (refused) call at the end, whose value shows up after the second round trip
                 badv = [{"ind": 0, "b": "txt", "id": [9991]}, {"ind": 0, "b": "txt", "id": [9992]}]
                 c["edits"].append({"kind": "copy", "i": hit[0] + 1, "at": 0, "f": "", "pats": [], "copy": badv, "lic": NO_LIC, "para": NO_PARA,
-                                   "raised": True, "exc": "ValueError"})
+                                   "raised": True, "exc": "ValueError", "acc": False})
                 c["load2"]["paras"][hit[0]]["copy"] = badv
                 out.append(c)
                 want.discard("refused-edit-applied")
@@ -2586,6 +2912,12 @@ def run_traces(ctx, quick, pool=None):
                          {"kind": "raw", "f": "Comment", "copy": "a\nb", "i": -1, "after": len(ops)},
                          {"kind": "none", "f": "License", "i": big_i, "after": len(ops)},
                          {"kind": "item", "f": "License", "copy": "x", "i": big_i, "after": len(ops)}]
+                if ops[big_i]["kind"] == "Files":
+                    # ... and one the format does not settle: the same (long) list with a look-alike inside one pattern
+                    bp = list(ops[big_i]["pats"])
+                    j = len(bp) // 2
+                    bp[j] = may_inject(rng, bp[j] if len(bp[j]) > 1 else "a-b")
+                    calls.append({"kind": "files", "pats": bp, "i": big_i, "after": len(ops)})
         elif rng.random() < 0.06:
             hdr, ops, start, form, dumpform = stressed_doc(rng, not quick)
             reqs = random_edit_requests(rng)
@@ -2629,6 +2961,13 @@ def run_traces(ctx, quick, pool=None):
         for e in tr["calls"]:
             k = "build call: " + ("refused " if e["raised"] else "") + e["kind"]
             nedits[k] = nedits.get(k, 0) + 1
+        for e in tr["calls"] + tr["edits"]:
+            if may_edit(e):
+                k = "not settled by the format (MayReject) %s: %s" % (e["kind"], "refused" if e["raised"] else "carried out")
+                nedits[k] = nedits.get(k, 0) + 1
+            if e["kind"] == "fault":
+                k = "fault of the caller's object: %s" % e["f"]
+                nedits[k] = nedits.get(k, 0) + 1
     prev = None
     nreject = 0
     for text in reject_texts(rng):
@@ -2793,7 +3132,7 @@ def run(ctx):
     ]
     procs = 6 if quick else 8
     # quick: one control per switch; thorough: all five and the all-off runs
-    negs = [NEG_CONTROLS[1], NEG_CONTROLS[2], NEG_CONTROLS[5], NEG_CONTROLS[6], NEG_CONTROLS[7], NEG_CONTROLS[8], NEG_CONTROLS[9]] if quick else NEG_CONTROLS
+    negs = [NEG_CONTROLS[1], NEG_CONTROLS[2], NEG_CONTROLS[5], NEG_CONTROLS[6], NEG_CONTROLS[7], NEG_CONTROLS[8], NEG_CONTROLS[9], NEG_CONTROLS[10]] if quick else NEG_CONTROLS
     import multiprocessing
     # the replay processes are forked before any thread exists
     _SCRATCH["dir"] = ctx.work               # (before the fork: the pool processes use it too)
@@ -2851,7 +3190,7 @@ def _replay_doc_sequence(case):
     seed, nconc = case.get("seed", 0), case.get("nconc", 1)
     seq = []
     for kind, nc, body in unpack(case.get("history", "")):
-        crc = zlib.crc32(body.encode())
+        crc = case_crc(kind, json.loads(body), body)
         seq += [(kind, json.loads(body), crc, k, nc) for k in ks_for(crc, nc, kind)]
     seq += [("doc", case["case"], case["crc"], k, nconc) for k in ks_for(case["crc"], nconc, "doc") if k <= case["k"]]
     prev = None
